@@ -181,6 +181,166 @@ Definition degap (g d : str) : str := filter (fun c => negb (in_gap g c)) d.
 Definition no_lower (s : str) : bool := forallb (fun c => negb (is_lower c)) s.
 Definition all_ascii (s : str) : bool := forallb is_ascii s.
 
+(* ---- histories: several calls on the same objects.  The model is pure: every step is the model applied to the
+   CURRENT value; objects that the code creates (BioSeq(value), slices, +) are new values, objects it keeps
+   (basket elements) are updated in place. ---- *)
+(* BioSeq.reverse, seq.py:591-596 *)
+Definition seq_reverse (s : bioseq) : bioseq := set_data s (rev (data s)).
+(* str.translate with a {ord(c): c'} table; unmapped characters are kept *)
+Fixpoint lookup_byte (c : byte) (m : list (byte * byte)) : byte :=
+  match m with
+  | [] => c
+  | (a, b) :: r => if byte_eqb a c then b else lookup_byte c r
+  end.
+Definition trans_map (d : str) (m : list (byte * byte)) : str := map (fun c => lookup_byte c m) d.
+Definition seq_trans (s : bioseq) (m : list (byte * byte)) : bioseq := str_transform _ trans_map s m.
+
+Definition show_exc (e : exc) : val :=
+  match e with
+  | IndexError => VE (bs "IndexError"%bs)
+  | ValueError => VE (bs "ValueError"%bs)
+  | TypeError => VE (bs "TypeError"%bs)
+  end.
+Definition show_res {A} (f : A -> val) (r : res A) : val := match r with Ok x => f x | Err e => show_exc e end.
+Definition show_seq (s : bioseq) : val := VL [VS (data s); VS (sid s)].
+Definition show_data (s : bioseq) : val := VS (data s).
+Definition show_basket (b : basket) : val := VL (map show_seq b).
+Definition show_gc (d : str) : val := let g := gc_counts d in VL [VI (Z.of_nat (fst g)); VI (Z.of_nat (snd g))].
+Definition show_counter (k : counter) : val :=
+  VL [VL (map (fun p => VL [VS [fst p]; VI (Z.of_nat (snd p))]) (counter_items k)); VI (Z.of_nat (counter_total k))].
+
+Inductive hstep :=
+| HGet (gap : option str) (ix : index)       (* seq.sl(gap=gap)[ix] / seq[ix] *)
+| HGetIn (gap : option str) (ix : index)     (* seq.sl(inplace=True, gap=gap)[ix]: self.data = subseq.data, seq.py:488-489 *)
+| HSet (ix : index) (v : str)                (* seq[ix] = v *)
+| HIadd (t : str)                            (* seq += t *)
+| HData (d : str)                            (* seq.data = d *)
+| HReverse                                   (* seq.reverse() *)
+| HTrans (m : list (byte * byte))            (* seq.str.translate(table) *)
+| HAdd (t : str) | HRadd (t : str)           (* seq + t, t + seq: new objects *)
+| HLen | HEq (t : str) | HGc
+| HOther (d : str) (gap : option str) (ix : index).   (* the same call on another sequence with the same id *)
+
+Definition upd {A} (s : bioseq) (f : A -> val) (r : res A) (g : A -> bioseq) : bioseq * val :=
+  match r with Ok x => (g x, f x) | Err e => (s, show_exc e) end.
+Definition hstep_run (s : bioseq) (h : hstep) : bioseq * val :=
+  match h with
+  | HGet gap ix => (s, show_res show_seq (seq_getitem gap s ix))
+  | HGetIn gap ix => upd s show_seq (seq_getitem gap s ix) (fun r => set_data s (data r))
+  | HSet ix v => upd s (fun _ => VNone) (seq_setitem s ix v) (fun x => x)
+  | HIadd t => (seq_iadd s t, VNone)
+  | HData d => (set_data s d, VNone)
+  | HReverse => (seq_reverse s, VNone)
+  | HTrans m => (seq_trans s m, VNone)
+  | HAdd t => (s, show_seq (seq_add s t))
+  | HRadd t => (s, show_seq (seq_radd s t))
+  | HLen => (s, VI (seq_len s))
+  | HEq t => (s, VB (seq_eq_str s t))
+  | HGc => (s, show_gc (data s))
+  | HOther d gap ix => (s, show_res show_seq (seq_getitem gap (new_seq d (sid s)) ix))
+  end.
+Fixpoint hist_run (s : bioseq) (hs : list hstep) : list val :=
+  match hs with
+  | [] => []
+  | h :: r => let p := hstep_run s h in VL [snd p; show_seq (fst p)] :: hist_run (fst p) r
+  end.
+
+(* for seq in self[i]: seq[j] = value, keeping the sequences already assigned when a later one raises *)
+Fixpoint upd_positions_st (b : basket) (ps : list nat) (j : index) (v : str) : basket * option exc :=
+  match ps with
+  | [] => (b, None)
+  | p :: r =>
+      match nth_error b p with
+      | None => (b, Some IndexError)
+      | Some s => match seq_setitem s j v with
+                  | Err e => (b, Some e)
+                  | Ok s' => upd_positions_st (set_nth b p s') r j v
+                  end
+      end
+  end.
+
+Inductive bstep :=
+| BHGetI (i : Z) | BHGetSl (sl : pyslice)
+| BHGetIJ (gap : option str) (i : Z) (j : index) | BHGetSlJ (gap : option str) (sl : pyslice) (j : index)
+| BHSetI (i : Z) (v : str)                    (* b[i] = 'str' *)
+| BHSetCopy (i k : Z)                         (* b[i] = b[k] : BioSeq(value) is a new object *)
+| BHSetX (i : Z)                              (* b[i] = x for the outside sequence x *)
+| BHSetSl (sl : pyslice) (vs : list str)
+| BHSetSlJ (sl : pyslice) (j : index) (v : str)
+| BHSetIJ (i : Z) (j : index) (v : str)
+| BHXSet (ix : index) (v : str) | BHXReverse | BHXTrans (m : list (byte * byte))   (* in-place edits of x *)
+| BHRowReverse (i : Z)                        (* b[i].reverse(): b[i] IS the element *)
+| BHUpperAll                                  (* b.str.upper() *)
+| BHCount.
+
+Definition bupd {A} (st : basket * bioseq) (r : res A) (g : A -> basket * bioseq) : (basket * bioseq) * val :=
+  match r with Ok x => (g x, VNone) | Err e => (st, show_exc e) end.
+Definition bstep_run (st : basket * bioseq) (h : bstep) : (basket * bioseq) * val :=
+  let b := fst st in let x := snd st in
+  match h with
+  | BHGetI i => (st, show_res show_seq (basket_get_int b i))
+  | BHGetSl sl => (st, show_res show_basket (basket_get_slice b sl))
+  | BHGetIJ gap i j => (st, show_res show_seq (basket_get_ij gap b i j))
+  | BHGetSlJ gap sl j => (st, show_res show_basket (basket_get_slj gap b sl j))
+  | BHSetI i v => bupd st (basket_set_int b i v) (fun b' => (b', x))
+  | BHSetCopy i k =>
+      match getitem b k with
+      | Err e => (st, show_exc e)
+      | Ok s => bupd st (setitem_int b i (new_seq (data s) (sid s))) (fun b' => (b', x))
+      end
+  | BHSetX i => bupd st (setitem_int b i (new_seq (data x) (sid x))) (fun b' => (b', x))
+  | BHSetSl sl vs => bupd st (basket_set_slice b sl vs) (fun b' => (b', x))
+  | BHSetSlJ sl j v =>
+      match getslice (seq 0 (length b)) sl with
+      | Err e => (st, show_exc e)
+      | Ok ps => let r := upd_positions_st b ps j v in
+                 ((fst r, x), match snd r with None => VNone | Some e => show_exc e end)
+      end
+  | BHSetIJ i j v => bupd st (basket_set_ij b i j v) (fun b' => (b', x))
+  | BHXSet ix v => bupd st (seq_setitem x ix v) (fun x' => (b, x'))
+  | BHXReverse => ((b, seq_reverse x), VNone)
+  | BHXTrans m => ((b, seq_trans x m), VNone)
+  | BHRowReverse i =>
+      match getitem b i with
+      | Err e => (st, show_exc e)
+      | Ok s => bupd st (setitem_int b i (seq_reverse s)) (fun b' => (b', x))
+      end
+  | BHUpperAll => ((basket_str_transform unit (fun d _ => py_upper d) b tt, x), VNone)
+  | BHCount => (st, show_res show_counter (countall b))
+  end.
+Fixpoint bhist_run (st : basket * bioseq) (hs : list bstep) : list val :=
+  match hs with
+  | [] => []
+  | h :: r => let p := bstep_run st h in
+              VL [snd p; show_basket (fst (fst p)); show_seq (snd (fst p))] :: bhist_run (fst p) r
+  end.
+
+Definition trans_ok (m : list (byte * byte)) : bool :=
+  forallb (fun p => is_ascii (fst p) && is_ascii (snd p) && negb (is_lower (snd p))) m.
+Definition okstr (s : str) : bool := all_ascii s && no_lower s.
+Definition opt_okstr (g : option str) : bool := match g with None => true | Some g => all_ascii g end.
+Definition gap_ix_ok (gap : option str) (ix : index) : bool :=
+  match gap, ix with Some _, ISlice s => contiguous s | _, _ => true end.
+(* steps inside the claim: ASCII, no lower case written behind the constructor's back, contiguous gap slices *)
+Definition hstep_wf (h : hstep) : bool :=
+  match h with
+  | HGet gap ix | HGetIn gap ix => opt_okstr gap && gap_ix_ok gap ix
+  | HSet _ v | HIadd v | HData v | HAdd v | HRadd v => okstr v
+  | HEq t => all_ascii t
+  | HTrans m => trans_ok m
+  | HOther d gap ix => all_ascii d && opt_okstr gap && gap_ix_ok gap ix
+  | HReverse | HLen | HGc => true
+  end.
+Definition bstep_wf (h : bstep) : bool :=
+  match h with
+  | BHGetIJ gap _ j | BHGetSlJ gap _ j => opt_okstr gap && gap_ix_ok gap j
+  | BHSetI _ v => all_ascii v
+  | BHSetSl _ vs => forallb all_ascii vs
+  | BHSetSlJ _ _ v | BHSetIJ _ _ v | BHXSet _ v => okstr v
+  | BHXTrans m => trans_ok m
+  | _ => true
+  end.
+
 (* ---- harness ---- *)
 Inductive op :=
 | OLen (s : str)
@@ -199,7 +359,9 @@ Inductive op :=
 | BSetI (b : list str) (i : Z) (v : str)
 | BSetSl (b : list str) (sl : pyslice) (vs : list str)
 | BSetSlJ (b : list str) (sl : pyslice) (j : index) (v : str)
-| BSetIJ (b : list str) (i : Z) (j : index) (v : str).
+| BSetIJ (b : list str) (i : Z) (j : index) (v : str)
+| OHist (s : str) (hs : list hstep)
+| BHist (b : list str) (x : str) (hs : list bstep).
 
 Definition ix_contig (ix : index) : bool := match ix with IInt _ => true | ISlice s => contiguous s end.
 Definition step_contig (o : option Z) : bool := match o with None => true | Some k => k =? 1 end.
@@ -229,18 +391,10 @@ Definition wf_C04 (o : op) : bool :=
   | BSetI b _ v => forallb all_ascii b && all_ascii v
   | BSetSl b _ vs => forallb all_ascii b && forallb all_ascii vs
   | BSetSlJ b _ _ v | BSetIJ b _ _ v => forallb all_ascii b && all_ascii v
+  | OHist s hs => all_ascii s && forallb hstep_wf hs
+  | BHist b x hs => forallb all_ascii b && all_ascii x && forallb bstep_wf hs
   end.
 
-Definition show_exc (e : exc) : val :=
-  match e with
-  | IndexError => VE (bs "IndexError"%bs)
-  | ValueError => VE (bs "ValueError"%bs)
-  | TypeError => VE (bs "TypeError"%bs)
-  end.
-Definition show_res {A} (f : A -> val) (r : res A) : val := match r with Ok x => f x | Err e => show_exc e end.
-Definition show_seq (s : bioseq) : val := VL [VS (data s); VS (sid s)].
-Definition show_data (s : bioseq) : val := VS (data s).
-Definition show_basket (b : basket) : val := VL (map show_seq b).
 Definition idx_id (k : nat) : str := "s"%byte :: dec_of_nat k.
 (* the harness builds BioBasket([BioSeq(d, id='s<k>') ...]) *)
 Definition mk_basket (l : list str) : basket :=
@@ -262,11 +416,8 @@ Definition run_op (o : op) : val :=
   | ORadd s t => show_seq (seq_radd (mk false s) t)
   | OIadd s t => show_seq (seq_iadd (mk false s) t)
   | OSet s ix v => show_res show_seq (seq_setitem (mk false s) ix v)
-  | OGc s => let g := gc_counts (data (mk false s)) in VL [VI (Z.of_nat (fst g)); VI (Z.of_nat (snd g))]
-  | OCount b =>
-      show_res (fun k => VL [VL (map (fun p => VL [VS [fst p]; VI (Z.of_nat (snd p))]) (counter_items k));
-                             VI (Z.of_nat (counter_total k))])
-               (countall (mk_basket b))
+  | OGc s => show_gc (data (mk false s))
+  | OCount b => show_res show_counter (countall (mk_basket b))
   | BGetI b i => show_res show_seq (basket_get_int (mk_basket b) i)
   | BGetSl b sl => show_res show_basket (basket_get_slice (mk_basket b) sl)
   | BGetIJ b gap i j => show_res show_seq (basket_get_ij gap (mk_basket b) i j)
@@ -275,6 +426,19 @@ Definition run_op (o : op) : val :=
   | BSetSl b sl vs => show_res show_basket (basket_set_slice (mk_basket b) sl vs)
   | BSetSlJ b sl j v => show_res show_basket (basket_set_slj (mk_basket b) sl j v)
   | BSetIJ b i j v => show_res show_basket (basket_set_ij (mk_basket b) i j v)
+  | OHist s hs => VL (hist_run (mk false s) hs)
+  | BHist b x hs => VL (bhist_run (mk_basket b, mk false x) hs)
   end.
 
 Definition run_C04 (o : op) : val := VL [VB (wf_C04 o); run_op o].
+
+(* ---- exact rational readings of the float-valued results (the harness compares the integer pairs and
+   recomputes the one IEEE division in the driver) ---- *)
+From Coq Require QArith.
+(* gc, seq.py:336-345: GC / (GC + AT) if GC + AT > 0 else 0 *)
+Definition gc_fraction (s : str) : QArith_base.Q :=
+  let g := gc_counts s in
+  if Nat.eqb (snd g) 0 then QArith_base.Qmake 0 1 else QArith_base.Qmake (Z.of_nat (fst g)) (Pos.of_nat (snd g)).
+(* countall(rtype='prob'), seq.py:929-931: {k: v / s for k, v in counter.items()} with s = counter.total() *)
+Definition prob_of (k : counter) (c : byte) : QArith_base.Q :=
+  QArith_base.Qmake (Z.of_nat (k c)) (Pos.of_nat (counter_total k)).
